@@ -58,6 +58,7 @@ type CaseResult struct {
 	Drops     uint32 // sniffer drops
 	TxDropped int64  // device tx_dropped
 	Undrained int64  // frames the kernel queued on a device that the monitor could not read within a minute
+	NTx       int    // frames sx transmitted on the monitor's devices during the whole run
 	Stall     time.Duration
 	SetupErr  string
 }
@@ -324,6 +325,7 @@ func RunCase(sx string, spec *CaseSpec) (res *CaseResult) {
 			res.TxDropped += v
 		}
 	}
+	res.NTx = c.TxCount()
 	res.Stall = c.health.end()
 	w.Close()
 	rg.Wait()
